@@ -5,7 +5,7 @@ use crate::classify::*;
 use crate::corpus::*;
 use crate::json::{hex, unhex, J};
 use crate::libapi::*;
-use crate::rng::{hash_bytes, Rng};
+use crate::rng::hash_bytes;
 use libmctp::smbus::MCTPSMBusContext;
 
 pub fn mon() -> Mon {
